@@ -41,6 +41,8 @@ func c07BaseItem(r *rand.Rand, bystanders int) val.Item {
 		"zfalse": val.Bool(false),
 		"zempty": val.Str(""),
 		"zm":     val.Map(map[string]val.V{"nul": val.Null(), "f": val.Bool(false)}),
+		// numbers and sets below the top level (targets of ADD / DELETE with a document path)
+		"zn": val.Map(map[string]val.V{"cnt": val.Num("3"), "tags": val.SS("a", "b", "c"), "nums": val.NS("1", "2"), "li": val.List(val.Num("1"), val.SS("x", "y"))}),
 		// bystanders no action ever names: values a float64 round trip would change
 		"zbig":   val.Num("12345678901234567890123456789012345678"),
 		"zbigns": val.NS("9007199254740993", "1152921504606846977"),
@@ -72,6 +74,9 @@ func pth(els ...interface{}) refmodel.Path {
 }
 
 type c07Case struct {
+	// IllPath names the shape of a target path that does not fit the item (a list index on a map, a map key on
+	// a list, a step into a scalar): the action can be applied to nothing, the request must not report success
+	IllPath string
 	U      *refmodel.Update
 	Item   val.Item // nil = absent
 	Values val.Item
@@ -284,6 +289,20 @@ var c07AddDelete = []addGen{
 	{"add-num-to-string", "ADD", pth("s"), val.Num("1")},
 	{"add-ss-to-ns", "ADD", pth("ns"), val.SS("x")},
 	{"add-alias", "ADD", pth("#n"), val.Num("1")},
+	// a document path as the target: applied to the nested value (DynamoDB) or refused - never accepted and ignored
+	{"add-num-nested", "ADD", pth("zn", "cnt"), val.Num("4")},
+	{"add-num-nested-new-member", "ADD", pth("zn", "fresh"), val.Num("1")},
+	{"add-num-list-element", "ADD", pth("zn", "li", 0), val.Num("10")},
+	{"add-ss-nested", "ADD", pth("zn", "tags"), val.SS("c", "d")},
+	{"add-ns-nested", "ADD", pth("zn", "nums"), val.NS("2", "3")},
+	{"add-ss-list-element", "ADD", pth("zn", "li", 1), val.SS("z")},
+	{"add-num-deep", "ADD", pth("m", "k", "y"), val.Num("1")},
+	{"add-nested-no-parent", "ADD", pth("nope", "cnt"), val.Num("1")},
+	{"delete-ss-nested", "DELETE", pth("zn", "tags"), val.SS("a", "zz")},
+	{"delete-ns-nested", "DELETE", pth("zn", "nums"), val.NS("2")},
+	{"delete-ss-nested-all", "DELETE", pth("zn", "tags"), val.SS("a", "b", "c")},
+	{"delete-ss-list-element", "DELETE", pth("zn", "li", 1), val.SS("x")},
+	{"delete-nested-absent", "DELETE", pth("zn", "nosuch"), val.SS("x")},
 	{"delete-ss", "DELETE", pth("ss"), val.SS("a", "zz")},
 	{"delete-ns", "DELETE", pth("ns"), val.NS("2")},
 	{"delete-bs", "DELETE", pth("bs"), val.BS("a")},
@@ -308,6 +327,21 @@ func c07Exhaustive() []c07Case {
 	}
 	for _, g := range c07AddDelete {
 		out = append(out, c07Case{U: &refmodel.Update{Actions: []refmodel.Action{{Kind: g.kind, Path: g.path, RHS: uv(":v")}}}, Item: c07BaseItem(r, 3+r.Intn(3)), Values: val.Item{":v": g.v}})
+	}
+	// target paths that do not fit the item: DynamoDB refuses them ("The document path provided in the update
+	// expression is invalid for update"); reporting success for an action that was applied to nothing is not
+	// "applying exactly the actions"
+	for _, ill := range []struct {
+		shape string
+		p     refmodel.Path
+	}{{"index-on-map", pth("m", 0)}, {"index-on-nested-map", pth("m", "k", 0)}, {"key-on-list", pth("l", "k")}, {"key-on-nested-list", pth("l", 2, "q")},
+		{"index-on-string", pth("s", 0)}, {"key-on-number", pth("n", "x")}, {"index-on-set", pth("ss", 0)}, {"step-through-index-on-map", pth("m", 0, "x")}} {
+		v := val.Item{":v": val.Str("new")}
+		out = append(out, c07Case{IllPath: ill.shape, U: &refmodel.Update{Actions: []refmodel.Action{{Kind: "SET", Path: ill.p, RHS: uv(":v")}}}, Item: c07BaseItem(r, 3), Values: v})
+		out = append(out, c07Case{IllPath: ill.shape, U: &refmodel.Update{Actions: []refmodel.Action{{Kind: "REMOVE", Path: ill.p}}}, Item: c07BaseItem(r, 3), Values: val.Item{}})
+		// next to an action that is fine: nothing of the request is applied
+		v2 := val.Item{":v": val.Str("new"), ":w": val.Num("1")}
+		out = append(out, c07Case{IllPath: ill.shape, U: &refmodel.Update{Actions: []refmodel.Action{{Kind: "SET", Path: pth("fine"), RHS: uv(":w")}, {Kind: "SET", Path: ill.p, RHS: uv(":v")}}}, Item: c07BaseItem(r, 3), Values: v2})
 	}
 	// the same on an absent item (upsert): only top-level targets make sense
 	for _, g := range c07RHS[:8] {
@@ -668,6 +702,18 @@ func (p *c07) evalCase(x *res, cs c07Case, rr refmodel.RenderOpts, viaClient boo
 	if base == nil {
 		base = val.Item{}
 	}
+	if len(names) > 0 && cs.Item != nil && len(expr)%2 == 0 {
+		// "#name" is a legal attribute name: bystanders spelled exactly like the placeholders the expression uses
+		// (the placeholder stands for ANOTHER attribute) keep their values like every attribute that is not targeted
+		base = base.Clone()
+		for k := range names {
+			if _, clash := base[k]; !clash {
+				base[k] = val.Str("attribute literally named " + k)
+			}
+		}
+		x.r.Counters["items_with_placeholder_named_bystanders"]++
+		cs.Item = base // cs is a copy: the client replay below stores the same item
+	}
 	want := cs.U.Apply(base, cs.Values)
 	ctx.Trace("update %q item=%s values=%s", expr, base.Canon(), cs.Values.Canon())
 	got, msg, site, after := updateDirect(expr, names, base, cs.Values)
@@ -692,8 +738,22 @@ func (p *c07) evalCase(x *res, cs c07Case, rr refmodel.RenderOpts, viaClient boo
 	case want.Unsure:
 		x.r.Counters["oracle_unsure"]++
 		return
+	case want.OrReject && got == "reject":
+		x.r.Counters["nested_add_delete_refused"]++
+		if !val.ItemsEqual(after, base) {
+			x.viol("rejected-update-changed-item", feature, fmt.Sprintf("Update(%q) was rejected (%s) but changed the item: %s", expr, msg, diffAttrs(after, base)), wit)
+		}
+		return
 	case want.Reject:
 		x.r.Counters["oracle_reject"]++
+		if got == "ok" && cs.IllPath != "" {
+			what := "and ignored"
+			if !val.ItemsEqual(after, base) {
+				what = "and changed the item: " + diffAttrs(after, base)
+			}
+			x.viol("ill-fitting-path-accepted", cs.U.Actions[len(cs.U.Actions)-1].Kind+"/"+cs.IllPath, fmt.Sprintf("Update(%q): the target path does not fit the item (%s) yet the update reports success %s", expr, cs.IllPath, what), wit)
+			return
+		}
 		if got == "ok" {
 			x.r.Counters["ill_typed_update_accepted"]++ // not a C07 verdict: C07 quantifies over well-formed updates
 			// ... with one exception that is a defect in its own right (listed finding): SET a = b where b does not
